@@ -4,6 +4,7 @@
 #include "algorithms/openmp/tbfopenmpalgorithmtsm.hpp"
 #include "algorithms/periodic/tbfalgorithmperiodictoptree.hpp"
 #include "algorithms/periodic/tbfalgorithmperiodictoptreetsm.hpp"
+#include "kernels/counterkernels/tbfinteractioncounter.hpp"
 
 namespace tbfsim {
 
@@ -26,9 +27,17 @@ struct CfgWeightPeriodic : CfgCommon {
     template <class PK> using TopAlgoTsm = TbfAlgorithmPeriodicTopTreeTsm<Real, PK, Mult, Loc, Space>;
 };
 
+// the interaction counter around the kernel, for the regular executor and for the top-tree algorithm
+struct CfgCounterWeightPeriodic : CfgWeightPeriodic {
+    using Inner = TbfInteractionCounter<Probe<WeightKernel<Real, Space>, true>>;
+    static constexpr bool hasCounters = true;
+};
+
 #define REG(key, Cfg, Ex) static WorldRegistrar reg_##Cfg##_##Ex(key, [](const Scenario& s) { return std::unique_ptr<IWorld>(new World<Cfg, Ex>(s)); })
 REG("periodic/weight/seq", CfgWeightPeriodic, EX_SEQ);
 REG("periodic/weight/omp", CfgWeightPeriodic, EX_OMP);
+REG("periodic/counter_weight/seq", CfgCounterWeightPeriodic, EX_SEQ);
+REG("periodic/counter_weight/omp", CfgCounterWeightPeriodic, EX_OMP);
 REG("periodic/weight/seqtsm", CfgWeightPeriodic, EX_SEQ_TSM);
 REG("periodic/weight/omptsm", CfgWeightPeriodic, EX_OMP_TSM);
 
